@@ -46,6 +46,16 @@ SUMMARY = {
  'C12-agent4': 'Local remembers directories it created and skips mkdir: a directory removed by another client\'s clean-up makes every retry fail',
  'C14-agent4': 'file extents fixed from the size seen at scan time: a file that grows or shrinks before it is read gets wrong ranges',
  'C18-agent4': '_delete_cached also removes the entry\'s (empty) directory: races with another client\'s mkdir + write',
+ 'C01-agent5': 'chunk producer started with executor.submit (same race as C09-agent2, found independently): at N=1 the last chunk is lost, small trees restore as empty files',
+ 'C04-agent5': 'per-instance memo of verified chunk digests: a second restore through the same Repository object skips the re-hash of freshly downloaded bytes',
+ 'C06-agent5': 'delete subtracts a shared-key user\'s chunk table from chunks_to_delete early: a snapshot of the caller loaded later re-adds unprotected chunks',
+ 'C09-agent5': 'producer checks the abort flag once per chunk instead of while waiting for room in the queue: a failure with a full queue hangs the snapshot',
+ 'C12-agent5': 'B2.authenticate forgets the current authorisation before the new one has arrived: calls starting during a refresh fail with AttributeError',
+ 'C13-agent5': 'B2 download URL helper drops quote(name) again',
+ 'C15-agent5': 'snapshots ordered by naive datetime.timestamp(): depends on the local time zone, wrong across a DST switch',
+ 'C16-agent5': 'follow_redirects plus a status hook that lets 3xx pass: httpx re-sends redirected requests unsigned / with the stale signature',
+ 'C17-agent5': 'nonce size rounded up on encrypt only: nonce_bits that are not a multiple of 8 are accepted but nothing can be decrypted',
+ 'C20-agent5': 'each wrapper credits the wall time since its previous call: with several streams the same interval is credited once per stream',
  'C20-agent1': 'transfer block size floor of 16000 bytes: below 32 kB/s each block owes more than the capped debt',
 }
 rows = []
